@@ -296,6 +296,8 @@ class FnSplicer:
             self.segs.insert(pos, '\n    opens_invariants ' + spec['opens_invariants'] + '\n', tag + '/kw', order=order)
         if not has_body:
             return
+        if 'match-guard-to-if' in (spec.get('rewrites') or []):
+            self._match_guard_to_if(body_open, body_close)
         if 'let-chain-last' in (spec.get('rewrites') or []):
             self._let_chain_last(body_open, body_close)
         if 'bool-or-assign' in (spec.get('rewrites') or []):
@@ -414,6 +416,76 @@ class FnSplicer:
             if int(k) >= len(closures):
                 raise ExtractError('lost anchor: closure #%s of %s (found %d closures)' % (k, tag, len(closures)))
 
+    def _match_guard_to_if(self, body_open, body_close):
+        """Rule 'match-guard-to-if' (works around a Verus defect: a match arm with an `if` guard loses
+        the final value of `&mut self`):
+            Some(LIT) if G => A, Some(_) => B      ->      Some(LIT) => if G { A } else { B }, Some(_) => B
+        Applied only to exactly this shape: the next arm's pattern is `Some(_)` (binds nothing and covers
+        every value the guarded pattern matches), so falling through to it is the `else` branch.
+        B's text is duplicated."""
+        toks = self.src.toks
+        text = self.src.text
+        sites = []
+        i = body_open + 1
+        while i < body_close:
+            if toks[i].text == '=>':
+                # pattern start: previous ',' '{' or '}' at same depth
+                j = i - 1
+                depth = 0
+                while j > body_open:
+                    tj = toks[j]
+                    if tj.kind == 'punct' and tj.text in CLOSE:
+                        depth += 1
+                    elif tj.kind == 'punct' and tj.text in OPEN:
+                        if depth == 0:
+                            break
+                        depth -= 1
+                    elif depth == 0 and tj.kind == 'punct' and tj.text == ',':
+                        break
+                    j -= 1
+                ps = j + 1
+                g = None
+                k = ps
+                while k < i:
+                    if toks[k].text in OPEN:
+                        k = match_close(toks, k)
+                    elif toks[k].kind == 'ident' and toks[k].text == 'if':
+                        g = k
+                        break
+                    k += 1
+                if g is not None:
+                    sites.append((ps, g, i))
+            i += 1
+        for (ps, g, arrow) in reversed(sites):
+            pat = [t.text for t in toks[ps:g]]
+            if not (len(pat) == 4 and pat[0] == 'Some' and pat[1] == '(' and pat[3] == ')' and
+                    (toks[ps + 2].kind in ('num', 'str', 'char') or pat[2] in ('true', 'false'))):
+                raise ExtractError('match-guard-to-if: guarded pattern is not `Some(<literal>)`')
+
+            def arm_end(start):
+                k = start
+                while True:
+                    tk = toks[k]
+                    if tk.kind == 'punct' and tk.text in OPEN:
+                        k = match_close(toks, k)
+                    elif tk.kind == 'punct' and (tk.text == ',' or tk.text in CLOSE):
+                        return k
+                    k += 1
+            a_end = arm_end(arrow + 1)          # index of ',' after A
+            if toks[a_end].text != ',':
+                raise ExtractError('match-guard-to-if: guarded arm is the last arm')
+            q = a_end + 1
+            if [t.text for t in toks[q:q + 5]] != ['Some', '(', '_', ')', '=>']:
+                raise ExtractError('match-guard-to-if: next arm is not `Some(_) =>`')
+            b_start = q + 5
+            b_end = arm_end(b_start)            # ',' or '}' after B
+            b_text = ''.join(seg_text(self.src, sg) for sg in self.segs.render(toks[b_start].start, toks[b_end - 1].end))
+            g_text = text[toks[g + 1].start:toks[arrow - 1].end]
+            self.segs.rewrite(toks[g].start, toks[arrow - 1].end, '', 'match-guard-to-if')
+            self.segs.insert(toks[arrow].end, ' if ' + g_text + ' {', 'match-guard-to-if/if', order=0)
+            self.segs.insert(toks[a_end - 1].end, ' } else { ' + b_text + ' }', 'match-guard-to-if/else-copy', order=9)
+            self.counts['match-guard-to-if'] = self.counts.get('match-guard-to-if', 0) + 1
+
     def _let_chain_last(self, body_open, body_close):
         """Rule 'let-chain-last': `if A && let P = E { B }` (the `let` is the LAST conjunct and the
         `if` has no `else`) -> `if A { if let P = E { B } }`.  Same evaluation order, same scopes."""
@@ -472,11 +544,61 @@ class FnSplicer:
                 i = k
             i += 1
 
+    def _closure_to_match(self, k, c, rule, ctag):
+        """Rules 'option-map-to-match' and 'unwrap-or-else-to-match' (Verus cannot resolve `final(self)`
+        when a closure captures a `&mut` parameter; both rewrites are the std definitions of the methods):
+            RECV.map(|PAT| BODY)            -> match RECV { Some(PAT) => Some(BODY), None => None }
+            RECV.unwrap_or_else(|| BODY)    -> match RECV { Some(verif_v) => verif_v, None => (BODY) }
+        The result only type-checks when RECV is an Option."""
+        toks = self.src.toks
+        text = self.src.text
+        (p0, p1, b0, b1, is_block, has_ret) = c
+        meth = {'option-map-to-match': 'map', 'unwrap-or-else-to-match': 'unwrap_or_else'}[rule]
+        if not (toks[p0 - 1].text == '(' and toks[p0 - 2].text == meth and toks[p0 - 3].text == '.'):
+            raise ExtractError('%s: rule %s expects `.%s(` before the closure' % (ctag, rule, meth))
+        if toks[b1 + 1].text != ')':
+            raise ExtractError('%s: rule %s expects `)` right after the closure' % (ctag, rule))
+        dot = p0 - 3
+        # receiver start: walk back over a postfix expression
+        j = dot - 1
+        while j > 0:
+            t = toks[j]
+            if t.kind == 'punct' and t.text in CLOSE:
+                depth = 0
+                while True:
+                    if toks[j].text in CLOSE:
+                        depth += 1
+                    elif toks[j].text in OPEN:
+                        depth -= 1
+                        if depth == 0:
+                            break
+                    j -= 1
+                j -= 1
+                continue
+            if t.kind in ('ident', 'num', 'str', 'char') or (t.kind == 'punct' and t.text in ('.', '::', '?')):
+                if t.kind == 'ident' and t.text in ('return', 'let', 'else', 'in', 'match', 'if', 'while'):
+                    break
+                j -= 1
+                continue
+            break
+        recv_start = j + 1
+        self.segs.insert(toks[recv_start].start, 'match ', ctag + '/match', order=0)
+        if rule == 'option-map-to-match':
+            pat = text[toks[p0 + 1].start:toks[p1 - 1].end] if p1 > p0 + 1 else '_'
+            self.segs.rewrite(toks[dot].start, toks[p1].end, ' { Some(%s) => Some(' % pat, rule)
+            self.segs.rewrite(toks[b1 + 1].start, toks[b1 + 1].end, '), None => None }', rule)
+        else:
+            self.segs.rewrite(toks[dot].start, toks[p1].end, ' { Some(verif_v) => verif_v, None => (', rule)
+            self.segs.rewrite(toks[b1 + 1].start, toks[b1 + 1].end, ') }', rule)
+        self.counts[rule] = self.counts.get(rule, 0) + 1
+
     def _closure(self, k, c, cspec, tag):
         toks = self.src.toks
         text = self.src.text
         (p0, p1, b0, b1, is_block, has_ret) = c
         ctag = '%s/closure%d' % (tag, k)
+        if cspec and cspec.get('rewrite'):
+            return self._closure_to_match(k, c, cspec['rewrite'], ctag)
         lets = []
         # split params at depth-0 commas
         params = []
@@ -700,6 +822,14 @@ class Extractor:
                 rebuilt.append(src.text[s[1]:s[2]])
         if ''.join(rebuilt) != src.text[a:b]:
             raise ExtractError('verbatim check failed for an item of %s' % src.path)
+
+
+def seg_text(src, s):
+    if s[0] == 'src':
+        return src.text[s[1]:s[2]]
+    if s[0] == 'ins':
+        return s[1]
+    return s[3]
 
 
 def render(src, segs, base_offset, clause_map, item_name):
